@@ -86,6 +86,11 @@ func (t DataType) Bytes(endian binary.ByteOrder, value interface{}, length int64
 			binary.LittleEndian.PutUint16(bs[2:], uint16(s.Minutes()))
 		case 8: // DATETIME, DATETIMEN(8)
 			s := asetime.MillisecondToFractionalSecond(rest)
+			if s == 300*int(asetime.Day/asetime.Second) {
+				// rounded up to midnight of the next day
+				days++
+				s = 0
+			}
 			binary.LittleEndian.PutUint32(bs[:4], uint32(days))
 			binary.LittleEndian.PutUint32(bs[4:], uint32(s))
 		}
